@@ -99,6 +99,8 @@ def fields(line):
 
 # ----------------------------------------------------------------------------------------------- cgio / ADF level
 IO_KINDS = ["ok", "ok", "ok", "ok", "missing", "garbage", "badhdr", "dir"]
+DTYPES = ["C1", "B1", "I4", "U4", "I8", "U8", "R4", "R8", "X4", "X8"]          # every data type the back ends store
+MLL_DTYPES = ["Integer", "LongInteger", "RealSingle", "RealDouble", "Character", "ComplexSingle", "ComplexDouble"]
 
 
 def gen_io(rng, big=False):
@@ -120,26 +122,36 @@ def gen_io(rng, big=False):
                 if shape == "dag" and b <= a:
                     continue
                 links.add((a, b))
+    # some links get a twin whose stored PATH does not exist in the (existing or not) target file: "a>b!"
+    dlinks = set((a, b) for (a, b) in links if rng.random() < 0.25)
+    dlinks |= set((a, b) for a in oks for b in range(nk) if rng.random() < 0.08)
+    if rng.random() < 0.3:
+        links -= set(e for e in dlinks if rng.random() < 0.5)       # the dangling link is then the ONLY way into that file
     ops, nopen = [], 0
     for _ in range(rng.randint(4, 22 if big else 16)):
         r = rng.random()
         if r < 0.3 or nopen == 0:
             ops.append("open %d %s" % (rng.choice(oks) if rng.random() < 0.75 else rng.randrange(nk), rng.choice("rm")))
             nopen += 1
-        elif r < 0.75:
+        elif r < 0.7:
             c = rng.randint(1, max(1, nopen)) if rng.random() < 0.95 else rng.randint(0, 9)
             ch, cur = [], None
             for _ in range(rng.randint(1, 4)):
-                cand = [b for (a, b) in links if cur is None or a == cur]
+                cand = [(b, False) for (a, b) in links if cur is None or a == cur] + [(b, True) for (a, b) in dlinks if cur is None or a == cur]
                 if cand and rng.random() < 0.85:
-                    cur = rng.choice(sorted(cand))
+                    cur, dang = rng.choice(sorted(cand))
                 else:
-                    cur = rng.randrange(nk)
-                ch.append(cur)
-            ops.append("%s %d %s" % (rng.choice(["walk", "walk", "node"]), c, " ".join(map(str, ch))))
+                    cur, dang = rng.randrange(nk), rng.random() < 0.2
+                ch.append("%d%s" % (cur, "!" if dang else ""))
+                if dang:
+                    break                                            # nothing can follow a step that fails
+            ops.append("%s %d %s" % (rng.choice(["walk", "walk", "node"]), c, " ".join(ch)))
+        elif r < 0.8:
+            c = rng.randint(1, max(1, nopen))
+            ops.append("data %d %s %d %s" % (c, rng.choice(DTYPES), rng.choice([1, 2, 7, 64]), rng.choice(["all", "block", "strided"])))
         else:
             ops.append("close %d" % (rng.randint(1, max(1, nopen)) if rng.random() < 0.9 else rng.randint(0, 9)))
-    world = "world %s %s" % (",".join(kinds), ",".join("%d>%d" % e for e in sorted(links)) or "-")
+    world = "world %s %s" % (",".join(kinds), ",".join(["%d>%d" % e for e in sorted(links)] + ["%d>%d!" % e for e in sorted(dlinks)]) or "-")
     return world, ops
 
 
@@ -148,6 +160,25 @@ def closing_tail(ops):
     + 5): the user 'closes all files'; closing an already closed number is a refused no-op"""
     n = sum(1 for o in ops if o.startswith("open")) + 1
     return ["close %d" % c for c in range(1, n + 1)]
+
+
+def io_align(r):
+    """model lines re-aligned with the implementation's: a data operation touches no handle table, so the state after it must
+    be the model's previous state (its own answer is not modelled)"""
+    il = [l.split(" h5 ")[0] for l in r["impl"] if not l.startswith("end ") and not l.startswith("cycle ")]
+    ml, out, k = r["model"], [], 0
+    script = [o for o in r["script"] if not o.startswith("cycle ")]
+    for i, o in enumerate(script):
+        if o.startswith("data "):
+            prev = out[-1] if out else ""
+            ans = il[i].split(" | ")[0] if i < len(il) else "data ?"
+            out.append(ans + " | " + " | ".join(prev.split(" | ")[1:]))
+        else:
+            if k < len(ml):
+                out.append(ml[k]); k += 1
+                if out[-1] == "diverge":
+                    break
+    return il, out
 
 
 def io_features(mlines):
@@ -184,7 +215,7 @@ def io_case(exe, world, ops, backend, work, tag, variant=None, cycles=1):
     il, oc, rep = run_h(exe, "\n".join(script) + "\n", [d, backend], work, tag)
     ml = None
     if variant:
-        ml = vlib.run_model("c17", "variant %s\nfuel 20000\n%s\n" % (variant, "\n".join([world] + body)), args=["io"])
+        ml = vlib.run_model("c17", "variant %s\nfuel 20000\n%s\n" % (variant, "\n".join([world] + [o for o in body if not o.startswith("data ")])), args=["io"])
     shutil.rmtree(d, ignore_errors=True)
     return {"impl": il, "outcome": oc, "report": rep, "model": ml, "world": world, "ops": ops, "backend": backend, "script": script}
 
@@ -192,7 +223,7 @@ def io_case(exe, world, ops, backend, work, tag, variant=None, cycles=1):
 def cyc_in_world(world):
     """does the link graph of a 'world' line contain a cycle between files (self links included)?"""
     t = world.split()
-    edges = [tuple(map(int, e.split(">"))) for e in t[2].split(",")] if len(t) > 2 and t[2] != "-" else []
+    edges = [tuple(map(int, e.rstrip("!").split(">"))) for e in t[2].split(",")] if len(t) > 2 and t[2] != "-" else []
     nodes = sorted({x for e in edges for x in e})
     reach = {n: {b for a, b in edges if a == n} for n in nodes}
     for _ in nodes:
@@ -319,6 +350,11 @@ def gen_mll(rng, backend, big=False):
                     body.append("link 0 1 2 SolL%d %d /Base/Zone1/Sol1" % (j, j))
         if rng.random() < 0.2:
             body.append("link 0 1 0 Dangling 10 /Base/Zone1")
+        others = [j for j in files if j != i]
+        if others and rng.random() < 0.15:                       # existing file, path that does not exist in it
+            body.append("link 0 1 0 NoPath%d %d /Base/NoSuchZone" % (others[0], others[0]))
+        for t in rng.sample(MLL_DTYPES, rng.randint(0, 3)):
+            body.append("array 0 1 A_%s %s %d" % (t, t, rng.choice([1, 5, 33])))
         body.append("close 0")
     # read / modify / failing calls
     held = {}
@@ -343,6 +379,8 @@ def gen_mll(rng, backend, big=False):
                 "rfield %d 1 %d 1 Density" % (h, Z), "rfield %d 1 %d 7 Density" % (h, Z), "ndesc %d 1" % h, "rdesc %d 1 1" % h,
                 "rdesc %d 1 9" % h, "gopath %d /Base/Zone1/GridCoordinates" % h, "gopath %d /Base/ZoneA/GridCoordinates" % h,
                 "gopath %d /Base/Nowhere" % h, "where", "nzones %d 7" % h,
+                "array %d 1 A_%s %s %d" % (h, rng.choice(MLL_DTYPES), rng.choice(MLL_DTYPES), rng.choice([2, 9])),
+                "array %d 1 New_%s %s 4" % ((h,) + (rng.choice(MLL_DTYPES),) * 2),
                 "desc %d 1 Extra text" % h, "sol %d 1 1 SolNew" % h, "delete %d 1 Info" % h, "base %d Another" % h,
                 "save %d 2%d %s %d" % (h, rng.randint(0, 1), rng.choice(["adf", "hdf5"]), rng.randint(0, 1))]))
         elif held:
@@ -533,6 +571,11 @@ def mll_model_lines(script, il, variant, backend):
 
 # ----------------------------------------------------------------------------------------------- the check
 CORPUS_IO = [("world ok,ok 0>1", ["open 0 r", "node 1 1", "close 1"]),
+             # a link to an EXISTING file whose stored path is missing there: as the first and as a later use of that file
+             ("world ok,ok 0>1!", ["open 0 r", "walk 1 1!", "walk 1 1!", "close 1"]),
+             ("world ok,ok,ok 0>1,0>1!,1>2!", ["open 0 m", "walk 1 1", "walk 1 1!", "walk 1 1 2!", "open 2 r", "walk 1 1 2!", "close 2", "close 1"]),
+             # every data type: dimension set-up, full / block / strided write and read
+             ("world ok,ok -", ["open 0 m"] + ["data 1 %s %d %s" % (t, n, h) for t in DTYPES for (n, h) in ((7, "all"), (8, "block"), (9, "strided"))] + ["close 1"]),
              ("world ok,ok,badhdr,garbage 0>1,0>2,0>3,1>2", ["open 0 m", "walk 1 2", "walk 1 3", "walk 1 1 2", "open 2 r", "open 3 r", "node 1 1", "close 1"]),
              ("world ok,ok,ok 0>1,1>2", ["open 0 r", "open 1 r", "walk 1 1 2", "walk 2 2", "close 2", "close 1", "open 2 r", "open 2 m", "close 1", "close 2"])]
 
@@ -543,6 +586,11 @@ def _sc(backend, prep, body):
 
 W = ["base 0 Base", "zone 0 1 Zone1 2", "coord 0 1 1 CoordinateX", "sol 0 1 1 Sol1", "field 0 1 1 1 Density"]
 CORPUS_MLL = [
+    # every MLL data type (HDF5: each complex access builds a compound memory type), and a link into an existing file with a missing path
+    _sc("hdf5", [], ["open 0 1 w", "base 0 Base"] + ["array 0 1 A_%s %s 6" % (t, t) for t in MLL_DTYPES] + ["close 0", "open 0 1 m"] +
+                    ["array 0 1 A_%s %s 3" % (t, t) for t in MLL_DTYPES] + ["close 0"]),
+    _sc("adf", [], ["open 0 1 w"] + W + ["close 0", "open 0 2 w", "base 0 Base", "link 0 1 0 NoPath 1 /Base/NoSuchZone", "close 0",
+                    "open 0 2 r", "open 0 2 m", "close 0"]),
     # witnesses of KNOWN findings (those of the repaired defects are regression inputs in corpus/C17/)
     # HDF5: reading through a link to another file; the same file opened twice, closed in the other order
     _sc("hdf5", [], ["open 0 1 w"] + W + ["close 0", "open 0 2 w", "base 0 Base", "zone 0 1 ZoneA 2",
@@ -638,10 +686,10 @@ def run(ck):
             bad = io_oracle(r)
             rep = {"level": "cgio", "backend": c["backend"], "world": c["world"], "ops": c["ops"]}
             if r["model"] is not None:
-                il = [l.split(" h5 ")[0] for l in r["impl"] if not l.startswith("end ") and not l.startswith("cycle ")]
+                il, mlx = io_align(r)
                 ck.cov["traces_validated_against_impl"] += 1
-                if il != r["model"] or r["outcome"] != "ok":
-                    dv = vlib.first_divergence(r["model"], il)
+                if il != mlx or r["outcome"] != "ok":
+                    dv = vlib.first_divergence(mlx, il)
                     corr_broken.append({"level": "cgio/adf", "corpus": c["file"], "world": c["world"], "ops": c["ops"], "outcome": r["outcome"],
                                         "first_divergence": dv and {"line": dv[0], "model": dv[1], "impl": dv[2]}})
         else:
@@ -676,14 +724,17 @@ def run(ck):
         feats = set()
         if r["model"] is not None:
             feats = io_features(r["model"])
-            for f in feats:
-                stats["io_features"][f] = stats["io_features"].get(f, 0) + 1
-            il = [l.split(" h5 ")[0] for l in r["impl"] if not l.startswith("end ") and not l.startswith("cycle ")]
-            ml = r["model"]
+            il, ml = io_align(r)
+            if any("!" in o for o in r["ops"]):
+                feats.add("dangling-path")
+            if any(o.startswith("data ") for o in r["ops"]):
+                feats.add("data-types")
             if ml and ml[-1] == "diverge":
                 same = il[:len(ml) - 1] == ml[:-1] and r["outcome"] != "ok"
             else:
                 same = il == ml and r["outcome"] == "ok"
+            for f in feats:
+                stats["io_features"][f] = stats["io_features"].get(f, 0) + 1
             stats["states_compared"] += len(ml)
             ck.cov["traces_validated_against_impl"] += 1
             if not same:
